@@ -3178,6 +3178,7 @@ class PyCdlib:
                 raise pycdlibexception.PyCdlibInvalidInput('Can only specify a UDF path for a UDF ISO')
 
             # UDF new path.
+            self._check_new_udf_path(udf_new_path.decode('utf-8'))
             (udf_name, udf_parent) = self._udf_name_and_parent_from_path(udf_new_path)
 
             file_ident = udfmod.UDFFileIdentifierDescriptor()
@@ -3268,6 +3269,15 @@ class PyCdlib:
         (name, parent) = self._udf_name_and_parent_from_path(utils.normpath(udf_path))
         if parent is None or not parent.is_dir():
             raise pycdlibexception.PyCdlibInvalidInput('Can only add a UDF File Identifier to a directory')
+        # The length of a File Identifier is stored in one byte, and includes
+        # the byte that says whether it is 8 or 16 bits per character.
+        decoded = name.decode('utf-8')
+        try:
+            namelen = len(decoded.encode('latin-1'))
+        except UnicodeEncodeError:
+            namelen = len(decoded.encode('utf-16_be'))
+        if namelen + 1 > 255:
+            raise pycdlibexception.PyCdlibInvalidInput('UDF file identifiers are limited to 254 bytes')
         try:
             parent.find_file_ident_desc_by_name(name)
         except pycdlibexception.PyCdlibInvalidInput:
